@@ -611,7 +611,6 @@ def sys_case(rng, cid, steps=None, nprog=None, big=False, script=None, mode=None
                 fam.incs[nm]["k"] += 1
                 L.append("file /%s %s" % (fam.inc_path(nm), hx(fam.inc_text(nm))))
                 L.append("mtime /%s %d" % (fam.inc_path(nm), t))
-                L.append("calls nosuch_zz:x")
                 for fam_line in ("reload %s %s | %s" % (objs[1], objs[2], objs[0]), None,
                                  "reload %s %s" % (objs[1], objs[2]), "reload %s | %s" % (objs[0], objs[2])):
                     if fam_line is None:
@@ -620,6 +619,8 @@ def sys_case(rng, cid, steps=None, nprog=None, big=False, script=None, mode=None
                     t += 10
                     L.append("now %d" % t)
                     L.append("intern " + " ".join(hx(n) for n in rng.shuffle(names)))
+                    # p1 is a top of its own: none of the case's calls are meant for it
+                    L.append("calls nosuch_zz:x" if fam_line.startswith("reload " + objs[1] + " ") else "calls " + " ".join(calls))
                     L.append(fam_line)
                     t += 10
                 L.append("calls " + " ".join(calls))
